@@ -57,3 +57,10 @@ Theorem C10_forged_never_resumed : forall ccap scaps es k w' r i a,
   sa_forged a = true -> r_resumed r = false.
 Proof. exact forged_never_resumed. Qed.
 Print Assumptions C10_forged_never_resumed.
+
+(* the numbering of the client-authentication policies (the library compares them numerically) is the one the
+   sources declare: Model/GenConsts.v is regenerated from the repository under test (tools/consts) before every build *)
+From V Require Import Model.GenConsts Proofs.TieC07.
+Theorem C10_policy_numbering_is_the_sources : TieC07.tie.
+Proof. exact TieC07.tie_holds. Qed.
+Print Assumptions C10_policy_numbering_is_the_sources.
